@@ -1,5 +1,6 @@
 pub mod behave;
 pub mod c01;
+pub mod c02;
 pub mod c03;
 pub mod c04;
 pub mod c06;
@@ -17,6 +18,7 @@ use crate::common::{Report, Tier};
 pub fn run(id: &str, tier: Tier) -> Option<Report> {
     Some(match id {
         "C01" => c01::run(tier),
+        "C02" => c02::run(tier),
         "C03" => c03::run(tier),
         "C04" => c04::run(tier),
         "C06" => c06::run(tier),
